@@ -62,10 +62,10 @@ def load_config(config_path: Path) -> dict[str, Any]:
     """
     if not config_path.exists():
         pyproject_path = config_path.parent / "pyproject.toml"
-        try:
-            config = parse_pyproject_toml(pyproject_path)
-        except ConfigParseError:
+        if not pyproject_path.exists():
             return get_defaults()
+        # A pyproject.toml that cannot be parsed is a configuration error, like malformed YAML/JSON
+        config = parse_pyproject_toml(pyproject_path)
         return config if config else get_defaults()
 
     return parse_config_file(config_path)
